@@ -37,6 +37,8 @@ def event_msgs(events, ch=0):
             out.append(ks(e[1], e[2], ch))
         elif e[0] == "pc":
             out.append(prog(e[1], e[2], ch))
+        elif e[0] == "cc":
+            out.append(Message(message_type=MT.CONTROL_CHANGE, channel=ch, control=e[2], velocity=e[3], time=e[1]))
         else:
             raise ValueError(e)
     return out
